@@ -145,6 +145,8 @@ def prop (c : Case) : Option String := Id.run do
         "complex Matrix Market file (header 'complex')"
       else if fmt == "mm" && st == "memerr" && c.pNat "longtok" > 0 then
         "Matrix Market comment line with a token of 64 or more characters"
+      else if fmt == "mm" && c.p "hdr" == "compat" then
+        "complex Matrix Market data under the header 'real' (what the pinned [cz]readMM accept)"
       else if c.p "sym" == "1" && c.p "diag" ≠ "all" && st == "memerr" then
         "symmetric file without all diagonal entries"
       else "well-formed file"
@@ -178,7 +180,10 @@ def prop (c : Case) : Option String := Id.run do
       let d := w.vals[t]!
       let good := if dbl then isNearest true d b else within1 false d b
       if !good then
-        return some s!"value of entry ({w.row},{w.col}) part {t} is not the printed decimal to working precision: bits {hexOfNat b.toNat (if dbl then 16 else 8)} ({encOf c})"
+        let fixedFmt := fmtTag c == "hb" || fmtTag c == "rb"
+        let trait := if fixedFmt && c.p "vstyle" == "fixed" && c.p "pform" ≠ "none" then "F-edited fields under a scale factor sP: "
+          else if c.p "expstyle" == "3" then "exponent printed without its letter (Fortran output of 3-digit exponents): " else ""
+        return some s!"{trait}value of entry ({w.row},{w.col}) part {t} is not the printed decimal to working precision: bits {hexOfNat b.toNat (if dbl then 16 else 8)} ({encOf c})"
   return none
 
 /-! ### Corr -/
